@@ -261,7 +261,7 @@ DERIVE_DROP = {'Serialize', 'Deserialize', 'Debug', 'Default', 'Display', 'EnumS
                'Error', 'Hash', 'PartialOrd', 'Ord', 'Serialize_repr', 'Deserialize_repr', 'Iden'}
 
 
-def r1_attrs(src, add_structural=False, keep_derive=()):
+def r1_attrs(src, add_structural=False, keep_derive=(), drop_extra=()):
     """drop serde/strum/... attributes, filter derive lists; returns (src, count)"""
     st = sig(lex(src))
     edits = []
@@ -282,7 +282,7 @@ def r1_attrs(src, add_structural=False, keep_derive=()):
                     if not s2:
                         continue
                     last = s2.split('::')[-1].strip()
-                    if last in DERIVE_DROP and last not in keep_derive:
+                    if (last in DERIVE_DROP or last in drop_extra) and last not in keep_derive:
                         continue
                     kept.append(s2)
                 if add_structural and 'PartialEq' in kept:
@@ -389,3 +389,37 @@ def r17_pub_fields(src):
         pos = b
     out.append(src[pos:])
     return ''.join(out), len(edits)
+
+
+def r18_mut_self(src):
+    """R18: `fn f(mut self, ..) BODY` -> `fn f(self, ..) { let mut self__ = self; BODY[self := self__] }` (Verus has no `mut self`)."""
+    st = sig(lex(src))
+    i = 0
+    while i < len(st) and not (st[i].kind == 'id' and st[i].text == 'fn'):
+        i += 1
+    if i >= len(st):
+        return src, 0
+    j = i + 2
+    while j < len(st) and st[j].text != '(':
+        j += 1
+    if j + 2 >= len(st) or not (st[j + 1].text == 'mut' and st[j + 2].text == 'self'):
+        return src, 0
+    pc = match_close(st, j)
+    k = pc
+    while k < len(st) and st[k].text != '{':
+        k += 1
+    if k >= len(st):
+        return src, 0
+    end = match_close(st, k)
+    edits = [(st[j + 1].start, st[j + 2].start, '')]
+    edits.append((st[k].end, st[k].end, ' let mut self__ = self;'))
+    for t in st[k + 1:end]:
+        if t.kind == 'id' and t.text == 'self':
+            edits.append((t.start, t.end, 'self__'))
+    out, pos = [], 0
+    for a, b, rep in sorted(edits):
+        out.append(src[pos:a])
+        out.append(rep)
+        pos = b
+    out.append(src[pos:])
+    return ''.join(out), 1
